@@ -256,7 +256,11 @@ def check_raster_saved(rep, spec, base):
 
     t = make_tree(spec["pid"], np.array(spec["xyz"], dtype=np.float32), np.array(spec["r"], dtype=np.float32))
     tr = ToImageStack(spec["resolution"])
-    want = np.asarray(tr(t))  # (Z, X, Y)
+    try:
+        want = np.asarray(tr(t))  # (Z, X, Y)
+    except Exception as e:
+        rep("ToImageStack.transform_and_save", "operation-raises", spec, f"{type(e).__name__}: {e}", "an image stack", variant=type(e).__name__)
+        return None
     clause = "saved-raster-reads-back-as-(X,Y,Z,1)" + ("-one-slice" if want.shape[0] == 1 else "")
     fname = os.path.join(base, "saved.tif")
     if os.path.exists(fname):
